@@ -106,3 +106,15 @@ Definition break_finally_prog : prog :=
                 SPass)
              (SReturn (EBin BAdd (EVar 2) (EInt 1%Z)))));
         f_line := 0 |})] |}.
+
+(* hand-written: for over a str and over a heterogeneous tuple, with break and else *)
+Definition for_str_tuple_prog : prog :=
+  {| p_classes := [];
+     p_funcs := [(1, {| f_params := [(1, TStr)]; f_ret := TInt; f_body :=
+        SSeq (SDecl 2 TInt (EInt 0%Z))
+       (SSeq (SFor 3 false (EVar 1) (SAssign 2 (EBin BAdd (EVar 2) (EInt 1%Z))) SPass)
+       (SSeq (SFor 4 false (ETuple [EInt 1%Z; EStr [115]; EBool true])
+                (SIf (EIsInst (EVar 4) CStr) SBreak (SAssign 2 (EBin BAdd (EVar 2) (EVar 4))))
+                (SAssign 2 (EInt (-1)%Z)))
+             (SReturn (EVar 2))));
+        f_line := 0 |})] |}.
